@@ -297,9 +297,17 @@ def r3_build(run, F):
                             decl_lids.add(y.get("lid"))
     meths = sorted(set(c.get("name") for c in hirq.calls(bh["hir"]) if c.get("k") == "MethodCall" and
                        any(y.get("k") == "Path" and y.get("lid") in decl_lids for y in walk(c["recv"]))))
-    other = [m_ for m_ in meths if m_ not in ("push", "reserve", "len", "capacity", "is_empty")]
-    run.ob("R3-DECLARATIONS", "declarations stay in scan order", bool(decl_lids) and "push" in meths and not other, F.where(bh),
-           "methods applied to the header's list of declarations: %s; anything but push can reorder or drop entries: %s" % (meths, other))
+    REORDER = ("sort", "sort_unstable", "sort_by", "sort_by_key", "sort_unstable_by", "sort_unstable_by_key", "sort_by_cached_key", "dedup", "dedup_by",
+               "dedup_by_key", "reverse", "retain", "retain_mut", "swap", "swap_remove", "remove", "insert", "rotate_left", "rotate_right", "drain",
+               "truncate", "pop", "clear", "split_off", "rev", "select_nth_unstable")
+    # (the list may be filled by `push` in the scan loop or collected from an order-preserving iterator chain over the nodes)
+    chain = []
+    for x in walk(bh["hir"]):
+        if x.get("k") == "Let" and isinstance(x.get("init"), dict) and hirq.strip_ref(x["pat"]).get("lid") in decl_lids:
+            chain += [c.get("name") for c in hirq.calls(x["init"]) if c.get("k") == "MethodCall"]
+    other = sorted(set(m_ for m_ in meths + chain if m_ in REORDER))
+    run.ob("R3-DECLARATIONS", "declarations stay in scan order", bool(decl_lids) and not other, F.where(bh),
+           "methods applied to the header's list of declarations: %s (built by %s); these reorder or drop entries: %s" % (meths, sorted(set(chain)), other))
     asserts = [c for c in hirq.calls(bh["hir"]) if hirq.panic_kind(c) == "assert"]
     run.ob("R3-NO-ERRORS-PRECONDITION", "build_header", len(asserts) >= 1, F.where(bh),
            "build_header asserts errors.is_empty(): an open zone only exists after a parse error")
